@@ -86,13 +86,13 @@ ALL_LAWS = ["AllWellFormed", "RoundTripLaw", "EqLaws", "MergeIsConcat", "MergeOp
 
 
 def mc(res, binary, label, base, fields, glob, steps, nobj=2, nest_at=0, nest_fields=(), laws=ALL_LAWS, bad_utf8=False,
-       wire_recs=(), max_recs=0, flavs=None, also=(), base_module="MC_PbObject", emit="Emit", replay="hist", keyf=None):
+       wire_recs=(), max_recs=0, flavs=None, also=(), base_module="MC_PbObject", emit="Emit", replay="hist", keyf=None, wire_limits=(0,)):
     """also: further harness binaries (other builds) on which the same tour is replayed"""
     schema = export_schema(binary, (base,))
     tour = os.path.join(scratch(), "obj-%s.tour" % label)
     c = cfg({"Type": '"%s"' % base, "Fields": tlaset(fields), "NestAt": nest_at, "NestFields": tlaset(nest_fields),
              "Global": tlaset('"%s"' % g for g in glob), "MaxSteps": steps, "NObj": nobj, "BadUtf8": "TRUE" if bad_utf8 else "FALSE",
-             "MaxRecs": max_recs},
+             "MaxRecs": max_recs, "WireLimits": tlaset(wire_limits)},
             invariants=laws, emit=emit, view="View") + "CONSTANT WireRecs <- WireRecsDef\n"
     # tuples cannot be written in a cfg file: the record alphabet goes into a generated wrapper module
     modname = "MC_PbObject_" + "".join(ch if ch.isalnum() else "_" for ch in label)
@@ -161,7 +161,7 @@ def c03(res, tier, seed):
 @check("C04")
 def c04(res, tier, seed):
     b = build_harness(PKG)
-    mc(res, b, "size-te", BASE_TE, [1, 6, 12, 14, 31, 44, 48, 69, 112], ["size", "setu"], D(tier, 2, 3), nest_at=18, nest_fields=[1, 2])
+    mc(res, b, "size-te", BASE_TE, [1, 6, 12, 134, 135, 14, 31, 48, 69, 112], ["size", "setu"], D(tier, 2, 3), nest_at=18, nest_fields=[1, 2])
     mc2(tier, res, b, "size-t3", BASE_T3, [81, 92, 94, 31, 69], ["size"], D(tier, 2, 3))
     finish(res, b, seed, tier, "mut=10,size=6,marshal=3,unmarshal=1,rt=1")
 
@@ -170,6 +170,8 @@ def c04(res, tier, seed):
 def c07(res, tier, seed):
     b = build_harness(PKG)
     mc(res, b, "merge-te", BASE_TE, [1, 124, 135, 31, 69, 112, 113], ["merge", "umerge", "cat"], D(tier, 2, 3), nobj=3, nest_at=18, nest_fields=[1])
+    # a singular group field (DELIMITED) present on both sides with complementary sub-fields: merge, never replace
+    mc(res, b, "merge-group", BASE_TE, [16], ["merge", "umerge", "cat"], 3, nobj=3, nest_at=16, nest_fields=[17, 16])
     mc2(tier, res, b, "merge-t3", BASE_T3, [81, 31, 71, 112], ["merge", "umerge", "cat", "setu"], 2, nobj=3, nest_at=98, nest_fields=[1])
     finish(res, b, seed, tier, "mut=10,merge=4,umerge=3,cat=3,unmarshal=1,clone=1")
 
@@ -214,6 +216,9 @@ def c11(res, tier, seed):
 def c12(res, tier, seed):
     b = build_harness(PKG)
     mc(res, b, "oneof-te", BASE_TE, [111, 112, 113, 114, 119, 121, 120], ["merge", "rt", "cat", "clone"], D(tier, 2, 3), nobj=3, nest_at=112, nest_fields=[1])
+    # member records with the right and with a WRONG wire type (which must go to the unknown fields and leave the oneof alone)
+    mc(res, b, "oneof-wire", BASE_TE, [111, 113], ["uwire", "uwmerge"], 2, wire_recs=[[248, 6, 1], [138, 7, 1, 97], [136, 7, 1], [130, 7, 0], [128, 7, 5], [250, 6, 1, 97]],
+       max_recs=2, laws=["AllWellFormed"])
     mc2(tier, res, b, "oneof-t3", BASE_T3, [111, 112, 113, 114, 1, 18], ["merge", "rt", "umerge"], 2, nest_at=112, nest_fields=[1])
     finish(res, b, seed, tier, "mut=12,merge=3,cat=3,umerge=2,rt=2,unmarshal=2")
 
@@ -225,7 +230,7 @@ def c13(res, tier, seed):
                            invariants=["DefinitionsAgree", "PrefixLaw"]))
     res.add_tlc(r, "VUtf8: table-driven DFA = definitional decoder on all strings over the 15-byte corner alphabet")
     # validated strings (editions VERIFY / proto3) and non-validated (proto2) in every position: singular, repeated, oneof, map key/value
-    mc(res, b, "utf8-te", BASE_TE, [14, 44, 69, 113, 15], ["marshal", "rt", "uenc"], 2, bad_utf8=True, laws=["AllWellFormed", "RoundTripLaw"])
+    mc(res, b, "utf8-te", BASE_TE, [14, 44, 69, 71, 113, 15], ["marshal", "rt", "uenc"], 2, bad_utf8=True, laws=["AllWellFormed", "RoundTripLaw"])
     mc2(tier, res, b, "utf8-t3", BASE_T3, [94, 44, 69, 113], ["marshal", "rt", "uenc"], 2, bad_utf8=True, laws=["AllWellFormed", "RoundTripLaw"])
     mc2(tier, res, b, "utf8-t2", BASE_T2, [14, 44, 69, 113, 15], ["marshal", "rt", "uenc"], 2, bad_utf8=True, laws=["AllWellFormed", "RoundTripLaw"])
     finish(res, b, seed, tier, "mut=10,marshal=4,unmarshal=4,rt=3")
@@ -236,6 +241,9 @@ def c13(res, tier, seed):
 def c14(res, tier, seed):
     b = build_harness(PKG)
     mc(res, b, "alias-te", BASE_TE, [15, 45, 70, 114], ["clone", "merge", "scribble", "rt", "umerge"], D(tier, 2, 3), nest_at=18, nest_fields=[1])
+    # unknown bytes: after Clone / Merge both sides receive more unknown fields (appends into a shared backing array would clobber)
+    mc(res, b, "alias-unknown", BASE_TE, [1], ["clone", "merge", "uwire", "uwall", "uwmerge"], 4, wire_recs=[[192, 196, 7, 1], [194, 196, 7, 2, 8, 1]],
+       max_recs=1, laws=["AllWellFormed"], flavs=[(BASE_TE, False), ("opaque." + BASE_TE, False)] if tier == "quick" else None)
     mc2(tier, res, b, "alias-t3", BASE_T3, [95, 45, 70, 98], ["clone", "merge", "scribble", "rt"], D(tier, 2, 3), nest_at=98, nest_fields=[1])
     finish(res, b, seed, tier, "mut=8,clone=4,merge=4,scribble=4,unmarshal=3,rt=2,umerge=2,cat=1")
     res.notes.append("every Unmarshal input buffer is overwritten right after the call (harness), so an aliasing decode shows as a changed projection at the next step; protodelim aliasing is covered by C27")
@@ -253,6 +261,8 @@ def c15(res, tier, seed):
 def c16(res, tier, seed):
     b = build_harness(PKG)
     mc(res, b, "cache-te", BASE_TE, [1, 18, 48], ["size", "rt", "marshal"], D(tier, 3, 4), nobj=2, nest_at=18, nest_fields=[1, 2])
+    mc(res, b, "cache-ext", "goproto.proto.test.TestAllExtensions", [18], ["size", "rt"], 4, nest_at=18, nest_fields=[1],
+       laws=["AllWellFormed", "RoundTripLaw"])
     finish(res, b, seed, tier, "mut=10,size=5,marshal=5,rt=3,equal=1,clone=1")
 
 
@@ -260,7 +270,8 @@ LAZY_BASE = "opaque.lazy_tree.Node"
 LAZY_FLAVS = [(LAZY_BASE, False), (LAZY_BASE, True), ("hybrid.lazy_tree.Node", False), ("lazy_tree.Node", False)]
 # wire records for lazy_tree.Node: field 99 (lazy nested Node) valid empty / valid with content / wrong wire type (varint) /
 # non-minimal length / ill-formed inside; field 1 (eager int32); an unknown field
-LAZY_RECS = [[154, 6, 0], [154, 6, 2, 8, 1], [152, 6, 5], [154, 6, 130, 0, 8, 1], [154, 6, 1, 255], [8, 1], [160, 31, 1]]
+LAZY_RECS = [[154, 6, 0], [154, 6, 2, 8, 1], [152, 6, 5], [154, 6, 130, 0, 8, 1], [154, 6, 1, 255], [8, 1], [160, 31, 1],
+             [154, 6, 3, 160, 31, 7]]      # the last one: an unknown field INSIDE the lazy submessage
 LAZY_TYPES = ["opaque.lazy_tree.Node", "hybrid.lazy_tree.Node", "lazy_tree.Node", "opaque.lazy_tree.Node:dyn",
               "opaque.goproto.proto.testeditions.TestRequiredLazy", "goproto.proto.testeditions.TestRequiredLazy",
               "opaque.goproto.proto.testeditions.TestAllTypes", "hybrid.goproto.proto.testeditions.TestAllTypes",
@@ -274,8 +285,12 @@ def c17(res, tier, seed):
     b = build_harness(PKG)
     # every input of up to 2 (quick) / 3 (thorough) records, decoded lazily and eagerly (nolazy both ways), followed by accesses:
     # re-marshal (default and deterministic) into another object, size, clone, equal, merge, checkinit
-    mc(res, b, "lazy-node", LAZY_BASE, [1, 99], ["uwire", "rt", "size", "clone", "equal", "checkinit"], D(tier, 2, 3),
-       nest_at=99, nest_fields=[1], wire_recs=LAZY_RECS, max_recs=D(tier, 2, 3), flavs=LAZY_FLAVS, laws=["AllWellFormed", "RoundTripLaw"])
+    mc(res, b, "lazy-node", LAZY_BASE, [1, 99], ["uwire", "uwdisc", "rt", "size", "clone", "equal", "checkinit"] + ([] if tier == "quick" else ["uwmerge"]),
+       2, nest_at=99, nest_fields=[1], wire_recs=[LAZY_RECS[i] for i in (0, 1, 2, 7, 5)] if tier == "quick" else LAZY_RECS,
+       max_recs=2, flavs=LAZY_FLAVS, laws=["AllWellFormed", "RoundTripLaw"])
+    # merging decodes (lazy then eager, eager then lazy) into one object: found F22
+    mc(res, b, "lazy-merge", LAZY_BASE, [99], ["uwire", "uwmerge", "rt"], 3, nobj=2, wire_recs=[LAZY_RECS[1], LAZY_RECS[0], [154, 6, 2, 16, 5]],
+       max_recs=1, flavs=LAZY_FLAVS[:2] if tier == "quick" else LAZY_FLAVS, laws=["AllWellFormed"])
     finish(res, b, seed, tier, "mut=6,unmarshal=8,rt=4,marshal=3,size=2,equal=2,clone=2,checkinit=2,merge=2,umerge=1", types=LAZY_TYPES)
     res.notes.append("lazy and eager decoding are bound to the SAME specification (nolazy is not a parameter of PbObject), so agreement of both with it is their observational equivalence")
 
@@ -293,6 +308,10 @@ def c28(res, tier, seed):
 def c30(res, tier, seed):
     b = build_harness(PKG)
     mc(res, b, "eq-te", BASE_TE, [11, 12, 135, 15, 18, 31, 69], ["equal", "clone", "rt", "setu"], D(tier, 2, 3), nobj=3, nest_at=18, nest_fields=[1])
+    # defaults and empty submessages set explicitly on one side only, equal numbers of populated fields (both argument orders)
+    mc(res, b, "eq-default", BASE_TE, [11, 12, 18], ["equal"], 3, nobj=2, laws=["AllWellFormed", "EqLaws"])
+    # containers emptied in place (residue) on extension and ordinary fields
+    mc(res, b, "eq-residue", "goproto.proto.test.TestAllExtensions", [1, 31], ["equal"], 4, nobj=2, laws=["AllWellFormed", "EqLaws"])
     mc2(tier, res, b, "eq-t3", BASE_T3, [91, 92, 95, 98], ["equal", "clone", "rt"], 2, nobj=3, nest_at=98, nest_fields=[1])
     finish(res, b, seed, tier, "mut=10,equal=6,clone=3,rt=3,unmarshal=1")
     res.notes.append("agreement with protoreflect.Value.Equal and protocmp.Transform: see evidence key equal_variants (harness cross-check in every equal step)")
@@ -329,6 +348,9 @@ def c06(res, tier, seed):
     # 72 field 14 string, 82/83/84 01: field 16 bytes / start group / end group, 92 01: field 18 message; lengths, payload, continuation
     alpha = [0, 1, 2, 8, 10, 13, 15, 16, 26, 114, 127, 128, 130, 131, 132, 255]
     mc_decode(res, b, "te", BASE_TE, alpha + ([146, 192] if tier != "quick" else []), 3 if tier == "quick" else 4, [0, 1, 2])
+    # containers exactly at and one beyond the recursion limit: group start/end of field 16 (83 01 / 84 01), message field 18 (92 01 len),
+    # nested inside each other, under limits 1..3
+    mc_decode(res, b, "nest", BASE_TE, [0, 1, 2, 8, 131, 132, 146], 4 if tier == "quick" else 6, [1, 2, 3])
     if tier != "quick":
         # lazy tree node: field 1 int32 (08), 2 nested lazy message (12), 99 lazy (9a 06), wrong wire types for them
         mc_decode(res, b, "lazy", LAZY_NODE, [0, 1, 2, 6, 8, 16, 18, 21, 128, 152, 154, 255], 4, [0, 1, 2, 3],
@@ -453,6 +475,7 @@ def c08(res, tier, seed):
     # the reflection build is bound to the same specification as the fast path: exhaustive tour on both builds ...
     mc(res, b, "builds-te", BASE_TE, [1, 124, 12, 14, 18, 31, 69, 112], ["rt", "merge", "clone", "equal", "checkinit", "size"], 2,
        nest_at=18, nest_fields=[1], also=(br,), laws=["AllWellFormed", "RoundTripLaw", "EqLaws", "MergeIsConcat"])
+    mc(res, b, "builds-ext", "goproto.proto.test.TestAllExtensions", [1, 31], ["equal", "merge"], 4, nobj=2, also=(br,), laws=["AllWellFormed", "EqLaws"])
     # ... seeded histories on the reflection build ...
     os.environ["VERIF_MIX"] = "mut=10,marshal=2,size=2,unmarshal=4,rt=2,merge=2,clone=2,equal=2,checkinit=2,umerge=1,cat=1"
     try:
@@ -485,7 +508,7 @@ MSET_RECS = [[11, 16, 232, 7, 26, 2, 8, 1, 12], [11, 26, 2, 16, 5, 16, 232, 7, 1
 def c47(res, tier, seed):
     b = build_harness(("msg", "mset"), tags="verif,protolegacy")
     br = build_harness(("msg", "mset"), tags="verif,protolegacy,protoreflect")
-    mc(res, b, "mset", MSET, [1000] if tier == "quick" else [1000, 1001], ["uwire", "rt", "size"] + ([] if tier == "quick" else ["clone", "equal", "marshal"]),
+    mc(res, b, "mset", MSET, [1000] if tier == "quick" else [1000, 1001], ["uwire", "uwmerge", "rt", "size"] + ([] if tier == "quick" else ["clone", "equal", "marshal"]),
        2, nobj=2, nest_at=0 if tier == "quick" else 1000, nest_fields=[1],
        wire_recs=MSET_RECS[:6] if tier == "quick" else MSET_RECS, max_recs=2, also=(br,), laws=["AllWellFormed", "RoundTripLaw"])
     for bb, lab in ((b, "fast"), (br, "reflect")):
